@@ -20,6 +20,9 @@ FILES = {
     "solodup": "solo solo\nsolo\n",
     "solotwin": "polish Polish\n",
     "innerpunct": "mother-in-law o'clock\nfoo-bar baz\n",
+    # one line longer than a 4096-byte read buffer, and one longer than a 64 KiB scanner token (words are separated by blanks, not lines)
+    "longline": " ".join("w%04dq" % i for i in range(1300)) + "\nlast\n",
+    "hugeline": "first\n" + "\t".join(("v%03d" % i) + "x" * 216 for i in range(310)) + "\n",
 }
 
 
@@ -150,6 +153,12 @@ def run(ctx):
     for L in ("1", "2", "3", "4", "5", "6"):          # requirements that are hard to meet in a short password: the refusal threshold
         for rq in ("uppercase,lowercase,digits,symbols", "digits,symbols", "symbols", "uppercase,digits"):
             add("characters", [("length", L), ("require", rq)])
+    # one character can meet two requirements (ambiguous overlaps uppercase, lowercase and digits): shorter than the number of required classes
+    for L in ("1", "2", "3"):
+        for al, rq in (("digits", "digits,ambiguous"), ("uppercase", "uppercase,ambiguous"), ("digits,uppercase", "digits,uppercase,ambiguous"),
+                       ("lowercase,digits", "lowercase,digits,ambiguous"), ("digits", "ambiguous,digits")):
+            for ex in (None, "symbols", "lowercase"):
+                add("characters", [("length", L), ("allow", al), ("require", rq)] + ([("exclude", ex)] if ex else []))
     for rep in range(6):
         seen.discard(("words", "--file=" + finfo["percent"]["path"], "--size=3"))
         add("words", [("file", "percent"), ("size", "3")])
